@@ -43,6 +43,14 @@ theorem acc_step {σ σ' : State} {a : Act} (h : AccAll σ) (hs : step σ a = so
     have e := step_sendFail hs; subst e
     obtain ⟨s1, s2, s3⟩ := h d
     exact accAll_setDir h ⟨s1, s2, s3⟩
+  | stall d =>
+    have e := step_stall hs; subst e
+    obtain ⟨s1, s2, s3⟩ := h d
+    exact accAll_setDir h ⟨s1, s2, s3⟩
+  | unstall d =>
+    have e := step_unstall hs; subst e
+    obtain ⟨s1, s2, s3⟩ := h d
+    exact accAll_setDir h ⟨s1, s2, s3⟩
   | iniCancel => have e := step_iniCancel hs; subst e; intro d; cases d <;> first | exact h .s | exact h .i
   | shutdown => have e := step_shutdown hs; subst e; intro d; cases d <;> first | exact h .s | exact h .i
   | tick =>
